@@ -57,6 +57,17 @@ PROPS = {
         "modelled": COMMON_MODELLED,
         "assumptions": ["source and destination are distinct objects (s.Transfer(s) does not terminate; outside the model)"],
     },
+    "C06": {
+        "lean": ["Stackage.Props.C06"],
+        "streams": [{"name": "condhist", "quick": 4000, "thorough": 80000}],
+        "rule": "setter histories (<= 8 quick, <= 14 thorough) over accepted and rejected arguments: nil / empty / user-defined / out-of-range operators, "
+                "nil / empty / stack (native, alias, pointer) / stringer / typed-nil / condition expressions, string / stringer / other keywords, "
+                "x {no-nesting, no-padding, parenthetical, encapsulation, read-only, pre-set Err}, starting from Cond(...) or Init(); after every call "
+                "Keyword, Operator, Expression, Valid (nil or not), Err (nil or not), CanNest, IsNesting, String; non-trivial = at least 2 calls",
+        "modelled": COMMON_MODELLED,
+        "assumptions": ["keyword arguments are strings, stringers, nil or other non-stringer values (a Stack/Condition passed as keyword is not generated)",
+                        "every per-call theorem is for an arbitrary state, hence for the state reached by any history"],
+    },
 }
 
 
@@ -153,7 +164,7 @@ def nontrivial(pid, payload):
     kinds = {o.split(" ")[0] for o in ops if o}
     if pid == "C15":
         return " [ ]" not in payload.split(" | ")[0]     # non-empty source
-    if pid in ("C13", "C14"):
+    if pid in ("C13", "C14", "C06"):
         return len(ops) >= 2
     return len(ops) >= 3 and len(kinds) >= 2
 
